@@ -48,6 +48,9 @@ class LimitsDriver(ClientDriver):
         w.daemon._chain = base.branch()
         self.op_thin(dict(n=depth + 1, seed=op['seed']))
         self.probe('c17.thin_fork')
+        # a slow daemon keeps the window between the last backup and the first re-indexed block open
+        self.saved_latency = w.dnet.latency
+        w.dnet.latency = (0.3, 2.5)
 
     def op_headers_window(self, op):
         """Headers requests spanning the tip, repeated while the reorganisation is in progress."""
@@ -57,6 +60,10 @@ class LimitsDriver(ClientDriver):
         c = self.client(0)
         if not self.ensure_connected(c):
             return
+        h0 = w.server.db.state.height
+        # wait until a block has been undone (the live end of the headers file moved down)
+        if w.run(lambda: w.server is not None and w.server.db.state.height < h0, 60.0) == 'pred':
+            self.probe('c17.window_entered')
         for _ in range(40):
             if w.server is None:
                 return
@@ -73,9 +80,11 @@ class LimitsDriver(ClientDriver):
                                  f'{res["count"]} but {nhex} headers in hex')
                 if nhex > min(n, MAX_CHUNK):
                     self.violate('C17', 'headers.more_than_requested', f'({s},{n}): {nhex}')
-            w.run(None, rng.choice([0.0, 0.05, 0.3, 1.0]))
+            w.run(None, rng.choice([0.0, 0.0, 0.05, 0.3]))
             if w.caught_up() and rng.random() < 0.3:
                 break
+        if getattr(self, 'saved_latency', None):
+            w.dnet.latency = self.saved_latency
 
     def quiesce(self, limit=None):
         return super().quiesce(limit or 3000.0)
